@@ -382,45 +382,52 @@ Proof.
   destruct a, b; simpl; intros H; try discriminate; auto. f_equal. apply nat_list_eqb_eq; auto.
 Qed.
 
-Lemma eval_wf f key e ca f' :
-  wfb f = true -> safe_eval f key e = true -> impl_eval f key e ca = Ok f' -> wfb f' = true.
+Lemma eval_value_attrs vs e val : vattrs_ok vs = true -> eval_value vs e = Ok val -> attrs_ok (vattrs val) = true.
 Proof.
-  intros W S H. unfold impl_eval in H.
+  intros A H. destruct e as [x|x y|x]; simpl in H.
+  - destruct (lookup x vs) as [v|] eqn:E; [|discriminate]. inv H. eapply vattrs_lookup; eauto.
+  - destruct (lookup x vs) as [va|] eqn:Ex; [|discriminate]. destruct (lookup y vs) as [vb|]; [|discriminate].
+    destruct (bcast (vshape va) (vshape vb)); [|discriminate]. inv H. simpl. eapply vattrs_lookup; eauto.
+  - destruct (lookup x vs) as [v|] eqn:E; [|discriminate]. destruct (vshape v); [discriminate|]. inv H. simpl.
+    eapply vattrs_lookup; eauto.
+Qed.
+
+(* eval: the file the value is put into is well-formed; the stored variable's attributes are retrievable *)
+Lemma eval_parts_ok f key e ca base stored :
+  wfb f = true -> eval_parts f key e ca = Ok (base, stored) ->
+  wfb base = true /\ attrs_ok (vattrs stored) = true.
+Proof.
+  intros W H. unfold eval_parts in H.
   set (first := if has key (fvars f) then key else expr_first e) in *.
   destruct (lookup first (fvars f)) as [fv|] eqn:Ef; [|discriminate].
   bindinv H. bindinv H. inv H.
-  assert (Wb : wfb a = true /\ fdims a = fdims f).
-  { destruct ca.
-    - eapply copy_wf; eauto.
-    - bindinv E. inv E. destruct (subset_wf _ _ _ W E1) as [Wg Eg]. apply wfb_elim in Wg as [G1 G2].
-      simpl. split; [|exact Eg]. apply wfb_intro; auto. apply vars_okb_adel; auto. }
-  destruct Wb as [Wb Eb]. apply wfb_elim in Wb as [B1 B2]. pose proof (wfb_elim _ W) as [W1 W2].
-  apply wfb_intro; auto. apply vars_okb_aset; [apply vars_okb_adel; auto|].
-  rewrite Eb.
-  assert (Hfv : var_okb (fdims f) fv = true) by (eapply vars_okb_lookup; eauto).
-  destruct e as [x|x y|x]; simpl in S, E0.
-  - (* EScale *)
-    destruct (lookup x (fvars f)) as [v|] eqn:Ex; [|discriminate]. inv E0.
-    assert (Hv : var_okb (fdims f) a0 = true) by (eapply vars_okb_lookup; eauto).
-    pose proof (var_okb_lengths _ _ Hv) as L.
-    destruct (Nat.eqb (length (vdims a0)) 0) eqn:Z0; simpl.
-    + (* scalar value: stored with the first variable's dims; safe => first is the operand itself *)
-      apply Nat.eqb_eq in Z0. simpl in S.
-      assert (fv = a0) as ->.
-      { unfold first in Ef. unfold has in *. destruct (lookup key (fvars f)) as [kv|] eqn:Ek; simpl in S.
-        - apply Nat.eqb_eq in S; subst. congruence.
-        - simpl in Ef. congruence. }
-      apply var_okb_elim in Hv as [H1 H2]. apply var_okb_intro; auto using attrs_ok_aset.
-    + rewrite <- L, Z0. simpl. exact Hv.
-  - (* EBin *)
-    destruct (lookup x (fvars f)) as [va|] eqn:Ex; [|discriminate].
-    destruct (lookup y (fvars f)) as [vb|] eqn:Ey; [|discriminate].
-    apply andb_true_iff in S as [S1 S2]. apply opt_shape_eqb_eq in S1. rewrite S1 in E0. inv E0. simpl.
-    assert (Hv : var_okb (fdims f) va = true) by (eapply vars_okb_lookup; eauto).
-    pose proof (var_okb_lengths _ _ Hv) as L. apply negb_true_iff in S2.
-    rewrite <- L, S2. simpl. rewrite var_eta. exact Hv.
-  - discriminate.
+  pose proof (wfb_elim _ W) as [W1 W2]. pose proof (vars_okb_vattrs _ _ W1) as VA. split.
+  - destruct ca.
+    + eapply copy_wf; eauto.
+    + bindinv E. inv E. destruct (subset_wf _ _ _ W E1) as [Wg Eg]. apply wfb_elim in Wg as [G1 G2].
+      apply wfb_intro; auto. apply vars_okb_adel; auto.
+  - pose proof (eval_value_attrs _ _ _ VA E0) as A0. pose proof (vattrs_lookup _ _ _ VA Ef) as Af.
+    match goal with |- context [if ?c then _ else _] => destruct c end; simpl; auto using attrs_ok_aset.
 Qed.
+
+Lemma lookup_aset_same {V} k (v : V) l : lookup k (aset k v l) = Some v.
+Proof. rewrite lookup_aset, Nat.eqb_refl. reflexivity. Qed.
+
+(* EXACT characterisation: eval leaves the file well-formed iff the value's shape equals the lengths of the dimensions it inherits *)
+Theorem eval_wf_iff f key e ca f' :
+  wfb f = true -> impl_eval f key e ca = Ok f' -> (wfb f' = true <-> eval_fits f key e ca = true).
+Proof.
+  intros W H. unfold impl_eval in H. bindinv H. unfold eval_fits. rewrite E. destruct a as [base stored]. inv H. simpl.
+  destruct (eval_parts_ok _ _ _ _ _ _ W E) as [Wb As]. apply wfb_elim in Wb as [B1 B2]. split.
+  - intros W'. apply wfb_elim in W' as [V1 _]. simpl in V1.
+    pose proof (vars_okb_lookup _ key stored _ V1 (lookup_aset_same _ _ _)) as Vs.
+    apply var_okb_elim in Vs as [Vs _]. rewrite Vs. apply opt_list_eqb_refl.
+  - intros Fit. apply opt_list_eqb_eq in Fit. apply wfb_intro; auto.
+    apply vars_okb_aset; [apply vars_okb_adel; auto|]. destruct stored as [ds sh at_]. apply var_okb_intro; auto.
+Qed.
+Lemma eval_wf f key e ca f' :
+  wfb f = true -> eval_fits f key e ca = true -> impl_eval f key e ca = Ok f' -> wfb f' = true.
+Proof. intros W S H. apply (eval_wf_iff _ _ _ _ _ W H). exact S. Qed.
 
 (* arithmetic (repaired pncbo): a result shape other than the left variable's raises *)
 Lemma binop_vars_ok T co other vs : forall acc vs',
@@ -535,7 +542,7 @@ Proof.
   - eapply apply_wf; eauto.
   - eapply stack_wf; eauto.
   - eapply mask_wf; eauto.
-  - unfold safe_op in S; simpl in S. destruct (safe_eval f key e) eqn:E; [|discriminate].
+  - unfold safe_op in S; simpl in S. destruct (eval_fits f key e copyall) eqn:E; [|discriminate].
     eapply eval_wf; eauto.
   - eapply binop_wf; eauto.
   - eapply interp_wf; eauto.
@@ -597,10 +604,12 @@ Proof.
   - unfold impl_reorder in H. destruct (negb (nodupb neworder)); [discriminate|]. bindinv H. bindinv H. inv H.
     unfold impl_copy in E. bindinv E. inv E. reflexivity.
   - unfold impl_mask in H. bindinv H. inv H. reflexivity.
-  - unfold impl_eval in H. destruct (lookup _ (fvars f)); [|discriminate]. bindinv H. bindinv H. inv H. simpl.
+  - unfold impl_eval in H. bindinv H. inv H. simpl. unfold eval_parts in E.
+    destruct (lookup _ (fvars f)); [|discriminate]. bindinv E. bindinv E. inv E. simpl.
     destruct copyall.
-    + unfold impl_copy in E. bindinv E. inv E. reflexivity.
-    + bindinv E. inv E. simpl. unfold impl_subset in E1. bindinv E1. inv E1. reflexivity.
+    + unfold impl_copy in E0. bindinv E0. inv E0. reflexivity.
+    + bindinv E0. inv E0. simpl.
+      match goal with Hs : impl_subset _ _ = Ok _ |- _ => unfold impl_subset in Hs; bindinv Hs; inv Hs end. reflexivity.
   - unfold impl_binop in H. bindinv H. inv H. reflexivity.
 Qed.
 
